@@ -158,9 +158,9 @@ def r4_messages(text):
 
 def r7_attrs(text):
     """Remove outer attributes `#[...]` and doc comments from the item text. Of a
-    `#[derive(..)]` list, `Debug` is kept, and `Clone, Copy` are kept when `Copy` is present
+    `#[derive(..)]` list, `Clone, Copy` are kept when `Copy` is present
     (Verus gives the derived Clone of a Copy type its specification); every other derive
-    (PartialEq, Eq, Hash, PartialOrd, Ord, Error, prost, serde) is dropped."""
+    (Debug, PartialEq, Eq, Hash, PartialOrd, Ord, Error, prost, serde) is dropped."""
     m, regions = mask(text)
     cnt = 0
     spans = []
@@ -178,7 +178,7 @@ def r7_attrs(text):
         mo = re.match(r'#\[\s*derive\s*\((.*)\)\s*\]$', attr, re.S)
         if mo:
             names = [x.strip() for x in mo.group(1).split(',') if x.strip()]
-            keep = [n for n in names if n == 'Debug']
+            keep = []
             if 'Copy' in names:
                 keep += [n for n in names if n in ('Clone', 'Copy')]
             if keep:
@@ -290,6 +290,51 @@ def r14_closure_wildcards(text):
     return ''.join(out), cnt
 
 
+def r12b_struct_fields(text):
+    """private fields of an extracted struct become `pub` (same reason as R12)."""
+    m, _ = mask(text)
+    mo = re.search(r'\bstruct\s+\w+\s*(?:<[^>{(]*>)?\s*([({])', m)
+    if not mo:
+        return text, 0
+    op = mo.end(1) - 1
+    cl = match_close(m, op)
+    inner_m = m[op + 1:cl]
+    inner = text[op + 1:cl]
+    # split fields at depth-0 commas
+    parts = []
+    depth = 0
+    start = 0
+    for i, ch in enumerate(inner_m):
+        if ch in '([{<':
+            depth += 1
+        elif ch in ')]}>':
+            if ch == '>' and i > 0 and inner_m[i - 1] == '-':
+                continue
+            depth -= 1
+        elif ch == ',' and depth == 0:
+            parts.append((start, i))
+            start = i + 1
+    parts.append((start, len(inner_m)))
+    cnt = 0
+    out = []
+    last = 0
+    for a, b in parts:
+        seg_m = inner_m[a:b]
+        st = len(seg_m) - len(seg_m.lstrip())
+        body = seg_m.strip()
+        if not body:
+            continue
+        # skip attributes (already removed by R7 normally) and fields that are already pub
+        if body.startswith('pub'):
+            continue
+        out.append(inner[last:a + st])
+        out.append('pub ')
+        last = a + st
+        cnt += 1
+    out.append(inner[last:])
+    return text[:op + 1] + ''.join(out) + text[cl:], cnt
+
+
 ALL = [
     ('R12', r12_visibility),
     ('R13', r13_try_into),
@@ -301,6 +346,7 @@ ALL = [
     ('R2', r2_le_bytes),
     ('R3', r3_eta),
     ('R4', r4_messages),
+    ('R12b', r12b_struct_fields),
 ]
 
 
